@@ -4,7 +4,6 @@ package mcp
 // controlled scheduler.  Ground truth is the append order recorded by a wrapping event store.
 
 import (
-	"bytes"
 	"context"
 	"fmt"
 	"net/http"
@@ -125,10 +124,7 @@ func c08Race(version string) vs.Verdict {
 		return f.verdict("")
 	}
 	idx := resumeFrom
-	for evt, err := range scanEvents(bytes.NewReader(recG.Body.Bytes())) {
-		if err != nil {
-			break
-		}
+	for _, evt := range hxParseSSE(recG.Body.Bytes()) {
 		if evt.ID == "" && len(evt.Data) == 0 {
 			continue
 		}
